@@ -772,6 +772,18 @@ def oracle_C08(t):
         post = t.post(i)
         if o["res"] == "panic" and st["kind"] in ("logoutuser", "refreshuser"):
             out.append(F(i, "%s panicked: %s" % (st["kind"], o.get("text", ""))))
+        # D12: once a reported failure of RegenerateID's first save has left an object
+        # cached under a key that is not its own ID, a later user-wide logout that
+        # meets no failure itself is acknowledged although the record stored under
+        # that key keeps the user (it is written under the object's advanced ID).
+        # Only this shape is judged after a store failure; see the next lines.
+        if i > t.first_dirty and st["kind"] == "logoutuser" and o["res"] == "void" and not t.faulted(i) \
+           and not st.get("plan") and st.get("crash") is None and i > 0:
+            u = st.get("u", 0)
+            pre = t.pre(i)
+            for k, e in pre.cache.items():
+                if kt(e["objid"]) != k and k in post.store and uid_of(post.store[k]) == u:
+                    out.append(F(i, "LogOut(%d) returned nil but the record stored under %s keeps the user: the cache held, under that ID, an object whose own ID had advanced to %s when an earlier ID change reported a failed save" % (u, k, kt(e["objid"])), "D12"))
         if i > t.first_dirty or o["res"] in ("crashed", "panic") or st.get("crash") is not None:
             continue
         faulty = not t.plain(i)   # the first step with a store failure: its pre-state is clean
